@@ -224,6 +224,18 @@ func (r *Run) classify(e *Exch, by map[int]*OResp) *cls {
 	return c
 }
 
+// bareBefore: the origin answered a validation of this exchange's resource with a minimal 304 at or before
+// this exchange.
+func (r *Run) bareBefore(e *Exch) bool {
+	res := e.Op.Res % len(r.Scn.Resources)
+	for _, o := range r.OResps {
+		if o.Bare && o.Res == res && (e.SeqRet == 0 || o.SeqResp <= e.SeqRet) {
+			return true
+		}
+	}
+	return false
+}
+
 // tainted: an injected store fault returned mutated (possibly still decodable) bytes for this
 // exchange's URI at or before this exchange.
 func (r *Run) tainted(e *Exch) bool {
@@ -279,6 +291,12 @@ func Judge(r *Run) *Judged {
 			continue
 		}
 		judgeFailOpen(r, j, c)
+		if r.bareBefore(c.e) {
+			// a minimal 304 (no provenance marker) has been merged into what is stored for this resource: which
+			// response's times and fields a served copy reflects can no longer be read off it; only the
+			// expected-hit rules (below, history-based) speak about such exchanges
+			continue
+		}
 		if c.e.Header == nil || r.tainted(c.e) {
 			// bytes handed to the cache by an injected store fault may decode into anything: content rules
 			// are off for exchanges on that URI from the mutated read onwards (fail-open rules stay on)
@@ -552,12 +570,29 @@ func judgeValidation(r *Run, j *Judged, c *cls, by map[int]*OResp) {
 				okIMS = true
 			}
 		}
+		for _, st := range e.Store {
+			switch st.Fault {
+			case "trunc", "flip", "corpus", "foreign":
+				okINM, okIMS = true, true // the store handed this exchange (or its background goroutine) mutated bytes
+			}
+		}
 		if !okINM || !okIMS {
 			j.fail("C02", "validation-request-wrong", e, "validators", "validators If-None-Match=%q If-Modified-Since=%q were never sent by the origin for this resource", inm, ims)
 		}
 	}
 	if !c.stored || c.method != "GET" {
 		return
+	}
+	// a 304 counts as validation of the stored response only if the origin was asked about *its* entity tag -
+	// not about one the client supplied for a representation it got elsewhere
+	if c.fg304 != nil && c.B != nil && r.chainExact2(c.B, e) {
+		sh, _ := r.effectiveStored(c.B, e.SeqInv)
+		if et := sh.Get("Etag"); et != "" {
+			j.count("C02", "validation-request-wrong")
+			if got := c.fg304.Req.Header.Get("If-None-Match"); got != et {
+				j.fail("C02", "validation-request-wrong", e, "not-the-stored-validator", "stored response sid=%d (ETag %s) was returned as validated by a 304, but the origin was asked If-None-Match=%q (client sent %q)", c.B.SID, et, got, e.Req.Header.Get("If-None-Match"))
+			}
+		}
 	}
 	scc := parseCC(c.hdr)
 	var why []string
@@ -1059,7 +1094,7 @@ func judgeSIE(r *Run, j *Judged, c *cls, by map[int]*OResp) {
 	// stored response must not be served under either reading
 	reqNoCache := c.reqCC.has("no-cache")
 	g := c.guard(r)
-	servedB := c.stored && c.B == B
+	servedB := c.stored && c.B == B && e.Err == "" // (a response handed back together with an error is a failure to every caller)
 	staleHi, staleLo := satAdd(aHi, -lLo), satAdd(aLo, -lHi)
 	// the cache takes its decision somewhere between learning of the failure and returning (it may read the
 	// store in between, and a store can be slow): "must be served" is claimed only if the window had not
@@ -1115,6 +1150,12 @@ func judgeSIE(r *Run, j *Judged, c *cls, by map[int]*OResp) {
 func (r *Run) effectiveStored(B *OResp, before uint64) (hdr http.Header, last *OResp) {
 	hdr, last, _ = r.validationChain(B, before)
 	return
+}
+
+// chainExact2 is chainExact without the clause about the client's own conditional requests of *this* exchange
+// (earlier ones still make the stored state ambiguous).
+func (r *Run) chainExact2(B *OResp, e *Exch) bool {
+	return r.chainExact(B, e)
 }
 
 // chainExact: can the stored state of B at the time of exchange e be derived from the history without
@@ -1272,15 +1313,21 @@ func (r *Run) hasStoreFault(e *Exch) bool {
 
 func judgeOIC(r *Run, j *Judged, c *cls) {
 	e := c.e
-	if !c.reqCC.has("only-if-cached") || c.method != "GET" || e.Req.Header.Get("Range") != "" {
+	if !c.reqCC.has("only-if-cached") {
 		return
 	}
+	// "under any circumstances": whatever the method, and also for a Range request
 	j.count("C18", "network-touched")
 	if len(e.Calls) > 0 {
 		u := e.Calls[0]
 		sig := "fg"
 		if !u.Fg {
 			sig = "bg"
+		}
+		if c.method != "GET" {
+			sig += "+method=" + methodClass2(c.method)
+		} else if e.Req.Header.Get("Range") != "" {
+			sig += "+range"
 		}
 		j.fail("C18", "network-touched", e, sig, "request with only-if-cached caused %d origin call(s) (first: #%d %s on %s, conditional=%v)", len(e.Calls), u.ID, u.Req.Method, u.Gor, u.Req.Header.Get("If-None-Match")+u.Req.Header.Get("If-Modified-Since") != "")
 	}
@@ -1292,6 +1339,13 @@ func judgeOIC(r *Run, j *Judged, c *cls) {
 	} else if c.synth && e.Status == 504 && len(e.Body) != 0 {
 		j.fail("C18", "oic-bad-response", e, "body", "synthesised 504 carries a body of %d bytes", len(e.Body))
 	}
+}
+
+func methodClass2(m string) string {
+	if safeMethods[m] {
+		return "safe"
+	}
+	return "unsafe"
 }
 
 // ---------------- C20 ----------------
